@@ -165,6 +165,8 @@ def block(cond, timeout=None):
         raise RuntimeError("blocking inside an atomic section")
     cur.timed_out = False
     cur.blocked_on = cond
+    if timeout is not None and timeout <= 0 and TIMER_EPS:
+        timeout = TIMER_EPS      # a zero-length timed wait still lets the clock tick
     cur.wake_at = None if timeout is None else s.now + timeout
     nxt = s.pick(cur)
     if nxt is not cur:
@@ -332,6 +334,56 @@ class DEvent(object):
         r = block(lambda: self.gen != g, timeout)
         S.emit("ev.woke", self._role(), "notified" if r else "timeout")
         return r
+
+
+class QuietEvent(object):
+    """Event used inside stdlib waiters (concurrent.futures.wait / as_completed): not a visible
+    operation of the library; blocking still goes through the scheduler."""
+
+    def __init__(self):
+        self.flag = False
+        self.gen = 0
+
+    def set(self):
+        self.flag = True
+        self.gen += 1
+
+    def clear(self):
+        self.flag = False
+
+    def is_set(self):
+        return self.flag
+
+    def wait(self, timeout=None):
+        if self.flag:
+            return True
+        if S is None or me() is None or S.aborting:
+            return self.flag
+        g = self.gen
+        return block(lambda: self.gen != g, timeout)
+
+
+class QuietLock(object):
+    """Lock used inside stdlib waiters: only ever held across code without yield points."""
+
+    def __init__(self):
+        self.held = False
+
+    def acquire(self, blocking=True, timeout=-1):
+        if self.held and S is not None and me() is not None and not S.aborting:
+            raise RuntimeError("contention on a quiet lock")
+        self.held = True
+        return True
+
+    def release(self):
+        self.held = False
+
+    def __enter__(self):
+        self.acquire()
+        return True
+
+    def __exit__(self, *a):
+        self.release()
 
 
 class DCondition(object):
@@ -599,8 +651,10 @@ def install(pool=False):
     import logging
     logging.disable(logging.CRITICAL)
     import concurrent.futures._base as base
-    shim = types.SimpleNamespace(Condition=DCondition, Event=DEvent, Lock=DLock, RLock=DRLock)
+    shim = types.SimpleNamespace(Condition=DCondition, Event=QuietEvent, Lock=QuietLock, RLock=DRLock)
     base.threading = shim
+    import time as _real_time
+    base.time = types.SimpleNamespace(monotonic=lambda: (S.now if S is not None else _real_time.monotonic()))   # as_completed's deadline
     patch_future()
     patch_me_future()
     from more_executors._impl import retry, poll, throttle, timeout, event, common, helpers, \
